@@ -185,6 +185,13 @@ func (r *Run) execute() int {
 		defer os.RemoveAll(dir)
 	}
 	dis := &Discharger{w: w, dir: dir, timeout: r.timeout, sem: make(chan struct{}, 24), survey: r.survey}
+	if !r.survey {
+		budget := 8 * time.Minute
+		if r.tier == "thorough" {
+			budget = 60 * time.Minute
+		}
+		dis.deadline = time.Now().Add(budget)
+	}
 	var wg sync.WaitGroup
 	for _, u := range r.units {
 		for _, o := range u.Obls {
